@@ -21,6 +21,11 @@ Tie and oracle (every part runs on each check):
      {missing, 0..2^w-2} (w = 1: {0, 1}), w <= 3 quick / w <= 4 thorough, numeric (201YYY on an 8-bit
      element) and code/flag elements of 2, 3, 4 bits; model-encoded with each legal width in
      0..w+2 and 63 and implementation-decoded; implementation-encoded and model-decoded.
+ (e) every width modifier x all special packed integers x all column shapes (harness/c05widths.py): for 201+/-, 202,
+     207 (also with a compensating 202), 201+207, 201+202, 203, 225255, 204, 206, 208 and code/flag elements under
+     201/202/207, elements of every arithmetic class (scale 0 and reference 0, scaled, with reference value), the raw
+     integers 2^k-1, 2^k and neighbours for k around the Table B width, around the width in force and in between,
+     each in an all-equal column, as minimum / as maximum of a varying column, next to a missing entry.
  (d) random columns: widths 1..64 (201YYY on a scale-0 element), scaled numerics up to 48 bits,
      up to 60 subsets, character columns (missing / equal / different / NUL bytes / 0xFF bytes /
      short strings, 205YYY, 208YYY), code/flag columns reaching the field's own all-ones value, new
@@ -36,6 +41,7 @@ import json
 from harness import core, tables_io
 from harness import coder_io as C
 from harness import coderprops as P
+from harness import c05widths
 
 PROP = 'C05'
 
@@ -45,17 +51,28 @@ META = dict(
          'number of subsets and every column: the decoder reads back every legal increment width (0 for equal/all-missing '
          'columns, width 1 with increment 1 = missing, anything up to 63 that holds the increments), the width the encoder picks '
          'is legal and its output is the specification column, encoder->decoder round trip for integer and character columns, '
-         'the code/flag re-check is inert on representable entries, the decoder agrees with an independent reader written from '
-         'regulation 94.6.3; plus the tie to pybufrkit: transparency oracle (same values encoded compressed and uncompressed '
-         'decode identically: values, labels, links) on generated templates of every construct and on corpus files re-encoded '
-         'with the flag flipped, implementation decoding of model-written columns with every legal width, exhaustive '
-         'small-scope columns through whole messages, random columns up to 64 bits / 60 subsets incl. strings, all-ones '
-         'code values, new reference values, associated and skipped fields.',
+         'the decoder agrees with an independent reader written from regulation 94.6.3; WHICH WIDTH the compressed readers look '
+         'at (Props/C05Width.lean): the numeric reader only ever sees the width in force (Table B width + 201 + 207) and never '
+         'the Table B width, so 2^nb-1 is an ordinary value of a widened field; the code/flag reader as written re-checks '
+         'against the descriptor\'s OWN width (literal two-width model decCodeflagCD), that re-check is inert exactly when the '
+         'field read is not wider than the descriptor says (iff theorem), and neither the template walk nor compiled programs '
+         'ever separate the two widths (so the one-width model is the code); whole-template transparency for the checked '
+         'encoder (Props/C05Walk.lean: same values encoded compressed and uncompressed decode to the same labels, values, '
+         'links); plus the tie to pybufrkit: transparency oracle (same values encoded compressed and uncompressed decode '
+         'identically: values, labels, links) on generated templates of every construct, on corpus files re-encoded with the '
+         'flag flipped, and on EVERY WIDTH MODIFIER (201+/-, 202, 207, 207 with compensating 202, 201+207, 201+202, 203, '
+         '225255, 204, 206, 208, code/flag elements under 201/202/207) x ALL special packed integers (2^k-1, 2^k and '
+         'neighbours for k around the Table B width, the width in force and in between) x all column shapes (equal, special '
+         'value as minimum, as maximum, next to a missing entry); implementation decoding of model-written columns with '
+         'every legal width, exhaustive small-scope columns through whole messages, random columns up to 64 bits / 60 subsets '
+         'incl. strings, all-ones code values, new reference values, associated and skipped fields.',
     technique='Lean 4 theorems (induction over columns, bit arithmetic) + metamorphic oracle on the implementation + checked '
               'model/implementation correspondence',
-    note='Whole-template transparency (C05_transparent of DESIGN.md) is carried by the oracle and the correspondence, not by a '
-         'theorem; the column theorems are unbounded. A missing value in a 1-bit field is not a conforming input. Floats: the '
-         'model uses exact decimals, compressed vs uncompressed decodes of the implementation are compared bit for bit.',
+    note='Whole-template transparency is proved for the CHECKED compressed encoder (C05_walk_transparent: side conditions field '
+         'width <= 64, replication factors / bitmap entries equal in all subsets and read back as supplied, no missing value in '
+         'a one-bit field of a varying column); outside those conditions it is carried by the oracle and the correspondence. '
+         'A missing value in a 1-bit field is not a conforming input. Floats: the model uses exact decimals, compressed vs '
+         'uncompressed decodes of the implementation are compared bit for bit.',
 )
 
 NUM8 = 5041        # SCAN LINE NUMBER: numeric, 8 bits, scale 0, reference 0
@@ -804,6 +821,45 @@ def random_part(ctx, drv, treq, count):
                 report(ctx, stage, why, c, dict(extra, note=c.note))
 
 
+# ---------------------------------------------------------------------------------------------
+# (e) every width modifier x all special packed integers x all column shapes (harness/c05widths.py)
+def widths_part(ctx, drv, treq):
+    rng = ctx.rng('widths')
+    wp = c05widths.WidthProbes(rng, thorough=ctx.tier != 'quick')
+    cases = wp.all_cases(str_column)
+    for start in range(0, len(cases), 100):
+        chunk = cases[start:start + 100]
+        for c, probs, info in evaluate(drv, treq, chunk, rng):
+            tally(ctx, c, info, 'widths')
+            sp, cols, notes = c.wspec
+            ctx.count('widths:modifier-' + sp.mod)
+            ctx.count('widths:columns', len(cols))
+            for nt in notes:
+                ctx.count('widths:' + nt)
+            if sp.kind != 's':
+                ctx.count('widths:%s' % ('widened' if sp.w > sp.nb else 'narrowed' if sp.w < sp.nb else 'width-unchanged'))
+                for col in cols:
+                    if sp.w != sp.nb and sp.nb > 1 and (1 << sp.nb) - 1 in col:
+                        ctx.count('widths:columns-holding-the-all-ones-value-of-the-table-b-width')
+            if info.get('enc') and info['enc'] != ('ok', 'ok'):
+                report(ctx, 'encode', 'conforming values refused: compressed %s, uncompressed %s' % info['enc'], c, {'note': c.note})
+                continue
+            if probs:
+                stage, why, extra = probs[0]
+                if may_shrink(ctx):
+                    done = False
+                    for c1 in wp.single_columns(c):
+                        r = evaluate(drv, treq, [c1], ctx.rng('shrink-k'))[0]
+                        pr = [p for p in r[1] if p[0] == stage]
+                        if pr:
+                            report(ctx, stage, pr[0][1], c1, dict(pr[0][2], note=c1.note))
+                            done = True
+                            break
+                    if done:
+                        continue
+                report(ctx, stage, why, c, dict(extra, note=c.note))
+
+
 def ncols_of(ids):
     """number of values a part of `Slots` / `directed_cases` takes per subset"""
     f = ids[0] // 1000
@@ -826,6 +882,7 @@ def run(ctx):
     ctx.assumptions = ['a missing value for a 1-bit field is not a conforming input (FM 94 has no missing value for 1-bit fields); never generated',
                        'numeric entries are below the all-ones pattern of their field (the property\'s raw domain); code/flag entries may reach it']
     random_part(ctx, drv, treq, 260 if quick else 6000)
+    widths_part(ctx, drv, treq)
     generated_part(ctx, drv, treq, 540 if quick else 12000)
     corpus_part(ctx, drv)
     exhaustive_part(ctx, drv, treq, 3 if quick else 4)
